@@ -1174,7 +1174,7 @@ func genScenario(r *lib.Rng, w *writer) {
 
 func main() {
 	if len(os.Args) < 3 {
-		fmt.Fprintln(os.Stderr, "usage: c07 attr <out> <maxlen> <nrandom> | gen <out> <n> | time <out> | sub <out> | casevar <out> | samekey <out> | replay <case.json>")
+		fmt.Fprintln(os.Stderr, "usage: c07 attr <out> <maxlen> <nrandom> | gen <out> <n> | time <out> | sub <out> | casevar <out> | samekey <out> | large <out> | pattern <out> | replay <case.json>")
 		os.Exit(2)
 	}
 	switch os.Args[1] {
@@ -1202,6 +1202,10 @@ func main() {
 		genCaseVar(os.Args[2])
 	case "samekey":
 		genSameKey(os.Args[2])
+	case "large":
+		genLarge(os.Args[2])
+	case "pattern":
+		genPattern(os.Args[2])
 	case "gen":
 		n, _ := strconv.Atoi(os.Args[3])
 		w := newWriter(os.Args[2])
